@@ -337,7 +337,13 @@ def _child(case):
         image = call["image"]
         rec = ops_by_image.get(image)
         if rec is None:
-            raise RuntimeError(f"stand-in docker: unexpected image {image}")
+            # not an image any execution of this case could legitimately ask for: record it on the
+            # only pending execution if that is unambiguous, else refuse
+            pending = [r for r in ops_by_image.values() if not r["calls"]]
+            uniq = {id(r): r for r in pending}
+            if len(uniq) != 1:
+                raise RuntimeError(f"stand-in docker: unexpected image {image}")
+            rec = list(uniq.values())[0]
         op = rec["op"]
         rec["calls"].append(call)
         vols = call["kwargs"].get("volumes") or []
@@ -458,13 +464,16 @@ def _child(case):
             kw["output_directory"] = Path(outdir)
         ds = cls(files_arg, **kw)
         expected_image = f"{ds_image_name}:{ds_tag}"
+        all_images = [expected_image]
         s = ds
         mds = []
         if op["image"] in ("md_one", "md_two", "md_first_in_chain"):
             if op["image"] == "md_two":
                 mds.append({"metadata_type": "docker", "image": f"md/first-{tag}:x"})
             mds.append({"metadata_type": "docker", "image": f"md/chosen-{tag}:y"})
-            expected_image = f"md/chosen-{tag}:y"
+            # which of two docker metadata wins is not stated by the property: either is accepted
+            expected_image = [m["image"] for m in mds]
+            all_images += expected_image
         steps = [list(x) for x in QUERY[op["backend"]]]
         extra = [{"metadata_type": "add_job_script", "name": f"js{k}", "script": [f"# js {k}"], "depends_on": []}
                  for k in range(op.get("md_extra", 0))]
@@ -479,11 +488,13 @@ def _child(case):
             s = s.MetaData(m)
         for st in steps[1:]:
             s = getattr(s, st[0])(st[1])
-        return s, files, outdir, expected_image
+        if not isinstance(expected_image, list):
+            expected_image = [expected_image]
+        return s, files, outdir, expected_image, all_images
 
     async def run_one(op, tag, rec):
         try:
-            s, files, outdir, expected_image = build_stream(op, tag)
+            s, files, outdir, expected_image, all_images = build_stream(op, tag)
         except BaseException as e:  # noqa
             rec["construct"] = type(e).__name__
             rec["construct_msg"] = str(e)[:200]
@@ -492,7 +503,8 @@ def _child(case):
         rec["files"] = files
         rec["outdir"] = outdir
         rec["expected_image"] = expected_image
-        ops_by_image[expected_image] = rec
+        for im in all_images:
+            ops_by_image[im] = rec
         eff_out = outdir if outdir is not None else tempfile.gettempdir() if case["start_state"] == "warmed" else tmpbase
         rec["eff_out"] = eff_out
         rec["outdir_before"] = sorted(os.listdir(eff_out)) if os.path.isdir(eff_out) else None
@@ -504,6 +516,14 @@ def _child(case):
             r = await s.value_async()
             rec["execute"] = "ok"
             rec["returned"] = [str(x) for x in r] if isinstance(r, (list, tuple)) else repr(r)
+            # read the returned file now: executions of one group that share an output directory overwrite
+            # each other's ANALYSIS.root (documented in LocalDataset's docstring), which is not a violation
+            try:
+                with real_open(rec["returned"][0]) as fh:
+                    rec["content_at_return"] = fh.read()
+            except Exception as e:  # noqa
+                rec["content_at_return"] = None
+                rec["content_error"] = str(e)
         except BaseException as e:  # noqa
             rec["execute"] = type(e).__name__
             rec["execute_msg"] = str(e)[:200]
@@ -533,7 +553,7 @@ def _child(case):
             if len(group) > 1:
                 bump("reach:concurrent_groups")
                 order = [c["image"] for c in docker.calls[n_calls_before:]]
-                exp = [r.get("expected_image") for r in recs if r["calls"]]
+                exp = [r["calls"][0]["image"] for r in recs if r["calls"]]
                 if order == exp:
                     bump("reach:concurrent_no_interleaving")
                 else:
@@ -602,7 +622,7 @@ def judge(rec, viols, bump, states, nontrivial, start_state, real_open):
         bump("reach:two_dirs")
         if rec["execute"] == "ok":
             V("bad-files-rejected-early", "files from two directories were accepted")
-        elif rec["execute"] != "RuntimeError":
+        elif rec["execute"] != "RuntimeError" and op.get("io_fault") not in ("filelist_open", "package_write"):
             V("bad-files-rejected-early", f"files from two directories raised {rec['execute']}: {rec.get('execute_msg')}")
         if rec["calls"]:
             V("bad-files-rejected-early", "a container was started although the files are in two directories")
@@ -622,8 +642,8 @@ def judge(rec, viols, bump, states, nontrivial, start_state, real_open):
     nontrivial.append(fingerprint(shape))
     call = rec["calls"][0]
     kw = call["kwargs"]
-    if call["image"] != rec["expected_image"]:
-        V("docker-call", f"image {call['image']!r}, expected {rec['expected_image']!r}")
+    if call["image"] not in rec["expected_image"]:
+        V("docker-call", f"image {call['image']!r}, expected one of {rec['expected_image']!r}")
     if call["command"] != ["/scripts/runner.sh"]:
         V("docker-call", f"command {call['command']!r}, expected ['/scripts/runner.sh']")
     if kw.get("remove") is not True or kw.get("stream") is not True:
@@ -699,11 +719,9 @@ def judge(rec, viols, bump, states, nontrivial, start_state, real_open):
     if rec["returned"] != [exp_path]:
         V("result-returned", f"returned {rec['returned']!r}, expected [{exp_path!r}]")
         return
-    try:
-        with real_open(exp_path) as f:
-            content = f.read()
-    except OSError as e:
-        V("result-returned", f"returned path cannot be read: {e}")
+    content = rec.get("content_at_return")
+    if content is None:
+        V("result-returned", f"returned path cannot be read: {rec.get('content_error')}")
         return
     if op.get("chained"):
         if f"token={rec['token']}" not in content:
@@ -779,7 +797,9 @@ def signature(case, v):
         extra = ":non-utf8-chunk"
     elif "binary leftover" in v.get("detail", ""):
         extra = ":binary-leftover"
-    return f"C17:{v['invariant']}:{outcome}:{case['start_state'] if 'AssertionError' in v.get('detail', '') else 'any'}{extra}"
+    if "constructing a dataset" in v.get("detail", ""):
+        return f"C17:{v['invariant']}:construct:{case['start_state']}"
+    return f"C17:{v['invariant']}:{outcome}{extra}"
 
 
 def describe(case):
